@@ -82,9 +82,10 @@ func mkPdSeg(name string, id int, info time.Time, hops []hopSpec) *pdSeg {
 }
 
 // pdPool builds the segment pool. Identities: P0 = X#1>B#2, P1 = X#3>M#1,6>B#4 (longer lifetime), P2 = Y#1>B#7
-// (other ISD, interface number 1 like P0 but in another AS). Versions: v0 (T0), v1 (T0+1000 s, with a peer entry
-// at the last AS: interface B#9 and a different FullID), v2 (T0+2000 s, no peer entry) and vx: info timestamp
-// T0+3000 s but last AS entry signed at T0+500 s (newest info, but a version between v0 and v1), with peer entry.
+// (other ISD, interface number 1 like P0 but in another AS). Versions (info timestamp / signing time of the last
+// AS entry): v0 (T0 / T0+0.1 s), vx (T0+3000 s / T0+0.5 s: newest info, but a version between v0 and v1, peer entry
+// at the last AS: interface B#9 and a different FullID), v1 (T0+1000 s / T0+1.1 s, peer entry), v2 (T0+2000 s for
+// both, no peer entry).
 func pdPool(thorough bool) []*pdSeg {
 	type idDef struct {
 		n    string
@@ -116,17 +117,24 @@ func pdPool(thorough bool) []*pdSeg {
 	var pool []*pdSeg
 	add := func(i int, v string) {
 		d := ids[i]
+		// The version is the signing time of the LAST AS entry (nanosecond resolution, independent of the info
+		// timestamp which only has seconds): v0 < vx < v1 lie within 1.1 s of each other - vx is newer than v0 by
+		// 0.4 s within the same second, v1 is newer than v0 by exactly 1 s and than vx by 0.6 s across a second
+		// boundary -, v2 is much newer.
+		mk := func(name string, info time.Time, peer bool, lastSign time.Time) {
+			h := d.hops(peer)
+			h[len(h)-1].signedAt = lastSign
+			pool = append(pool, mkPdSeg(d.n+name, i, info, h))
+		}
 		switch v {
 		case "v0":
-			pool = append(pool, mkPdSeg(d.n+"v0", i, c27T0, d.hops(false)))
-		case "v1":
-			pool = append(pool, mkPdSeg(d.n+"v1", i, c27T0.Add(1000*time.Second), d.hops(true)))
-		case "v2":
-			pool = append(pool, mkPdSeg(d.n+"v2", i, c27T0.Add(2000*time.Second), d.hops(false)))
+			mk("v0", c27T0, false, c27T0.Add(100*time.Millisecond))
 		case "vx":
-			h := d.hops(true)
-			h[len(h)-1].signedAt = c27T0.Add(500 * time.Second)
-			pool = append(pool, mkPdSeg(d.n+"vx", i, c27T0.Add(3000*time.Second), h))
+			mk("vx", c27T0.Add(3000*time.Second), true, c27T0.Add(500*time.Millisecond))
+		case "v1":
+			mk("v1", c27T0.Add(1000*time.Second), true, c27T0.Add(1100*time.Millisecond))
+		case "v2":
+			mk("v2", c27T0.Add(2000*time.Second), false, c27T0.Add(2000*time.Second))
 		}
 	}
 	if !thorough {
@@ -300,8 +308,8 @@ func (m *pdModel) delSegment(partial string) string {
 }
 
 func pdRenderRow(idHex string, info, lastSign time.Time, nHops int, t seg.Type) string {
-	return fmt.Sprintf("%s info=T0+%d ver=T0+%d hops=%d %v", idHex[:8], int(info.Sub(c27T0).Seconds()),
-		int(lastSign.Sub(c27T0).Seconds()), nHops, t)
+	return fmt.Sprintf("%s info=T0+%d ver=T0+%dms hops=%d %v", idHex[:8], int(info.Sub(c27T0).Seconds()),
+		lastSign.Sub(c27T0).Milliseconds(), nHops, t)
 }
 
 func pdKeys(m map[uint64]bool) []uint64 {
@@ -712,8 +720,8 @@ func c27PathDB(t *testing.T, r *mc.Run, phases *[]map[string]any) bool {
 	}
 	r.Extra["pathdb_pool"] = func() (n []string) {
 		for _, s := range big.cfg.pool {
-			n = append(n, fmt.Sprintf("%s id=%s ver=T0+%d info=T0+%d expiry=T0+%d", s.name, s.idHex[:8],
-				int(s.lastSign.Sub(c27T0).Seconds()), int(s.info.Sub(c27T0).Seconds()), int(s.expiry.Sub(c27T0).Seconds())))
+			n = append(n, fmt.Sprintf("%s id=%s ver=T0+%dms info=T0+%d expiry=T0+%d", s.name, s.idHex[:8],
+				s.lastSign.Sub(c27T0).Milliseconds(), int(s.info.Sub(c27T0).Seconds()), int(s.expiry.Sub(c27T0).Seconds())))
 		}
 		return
 	}()
@@ -738,7 +746,8 @@ func c27NextQuery(t *testing.T, r *mc.Run, phases *[]map[string]any) bool {
 	// destination ISD, source AS, source ISD); the last pair is only ever read
 	pairs := [][2]addr.IA{{iaX, iaB}, {iaX, iaM}, {iaX, iaB2}, {iaM, iaB}, {iaY, iaB}, {iaB, iaX}}
 	nWritten := len(pairs) - 1
-	times := []time.Time{c27T0.Add(100 * time.Second), c27T0.Add(200*time.Second + 5), c27T0.Add(300 * time.Second)}
+	// adjacent at nanosecond and at second resolution
+	times := []time.Time{c27T0.Add(100 * time.Second), c27T0.Add(100*time.Second + 5), c27T0.Add(101 * time.Second)}
 	var menu []nqEv
 	for p := 0; p < nWritten; p++ {
 		for ti := range times {
